@@ -3,5 +3,5 @@ CONSTANTS
   N = 3
   W = 2
   NegWeights = FALSE
-INVARIANTS BoundExact Decreasing StreamValid Optimal
+INVARIANTS BoundExact Decreasing StreamValid Optimal EmitInit
 CHECK_DEADLOCK FALSE
